@@ -43,6 +43,9 @@ def dispatch(prop):
     if prop == "C09":
         import defgraph
         return defgraph.run_c09
+    if prop == "selftest":
+        import selftest
+        return selftest.run
     if prop == "X-jsoncodec":
         import jsoncodec
         return jsoncodec.run
